@@ -270,6 +270,7 @@ theorem RInv.step {s s' : State} {e : Ev} (hr : RInv s) (hk : KInv s) (hi : HInv
   | joinFail a h => obtain ⟨_, _, _, _, _, rfl⟩ := joinFail_ok hs; exact ⟨hr.k0n, hr.k0w, hr.tF⟩
   | tlsFail t' k g => obtain ⟨_, _, _, _, _, rfl⟩ := tlsFail_ok hs; exact ⟨hr.k0n, hr.k0w, hr.tF⟩
   | currentFail t' => obtain ⟨_, _, rfl⟩ := currentFail_ok hs; exact ⟨hr.k0n, hr.k0w, hr.tF⟩
+  | storeFail t' k r => obtain ⟨n, _, _, _, _, _, rfl⟩ := storeFail_ok hs; exact ⟨hr.k0n, hr.k0w, hr.tF⟩
   | startUnstored t' =>
     obtain ⟨h0, _, _, _, _, _, _, rfl⟩ := startUnstored_ok hs
     refine ⟨hr.k0n, hr.k0w, ?_⟩
@@ -521,6 +522,7 @@ theorem SJInv.step {s s' : State} {e : Ev} (hj : SJInv s) (hs : step s e = .ok s
     obtain ⟨_, _, rfl⟩ := currentFail_ok hs
     refine hj.frame rfl (Nat.le_succ _) (fun h hh => ?_)
     simp only; rw [upd_ne _ _ (by omega)]
+  | storeFail t k r => obtain ⟨n, _, _, _, _, _, rfl⟩ := storeFail_ok hs; exact hj.frame rfl (Nat.le_refl _) (fun _ _ => rfl)
   | startUnstored t =>
     obtain ⟨h0, _, _, _, _, _, _, rfl⟩ := startUnstored_ok hs
     refine hj.frame rfl (Nat.le_refl _) (fun h' _ => ?_)
@@ -953,6 +955,22 @@ theorem refine_replaceLocal {s s' : State} {sp : S} {t k v : Nat} (hk : KInv s) 
   by_cases c : s.tls t n ≠ 0 ∧ (s.key k).notifier = true
   · simp [c, hk0, liveOf]
   ·     simp [c, liveOf]
+
+theorem refine_storeFail {s s' : State} {sp : S} {t k : Nat} {r : Bool} (ab : Abs s sp)
+    (hs : step s (.storeFail t k r) = .ok s') :
+    Abs s' sp ∧
+    obsM s (.storeFail t k r) s' = { live := liveOf s', dtor := if r then sortD (Sp.replaceLocal sp t k 0).2.dtor else [] } := by
+  obtain ⟨n, _, hk0, hlt, hwf, hp, rfl⟩ := storeFail_ok hs
+  refine ⟨ab.same (fun _ => rfl) rfl (fun _ => rfl) (fun _ => rfl) (fun _ => rfl) (fun _ _ _ => rfl) (fun _ => rfl), ?_⟩
+  have hcell : sp.cell t k = s.tls t n := by rw [ab.aC t k hk0, cellOf, hwf]; simp [valueOf_pub hp]
+  have hnot : sp.keys[k]?.getD false = (s.key k).notifier := by rw [ab.notif k]; simp [hlt]
+  cases r with
+  | false => simp [obsM, notifyOld, setCallsNotifier, sortD, liveOf]
+  | true =>
+    simp only [obsM, PV.UThreadSpec.replaceLocal, notifyOld, replaceCallsNotifier, hcell, hnot, List.drop_append_length, if_true]
+    by_cases c : s.tls t n ≠ 0 ∧ (s.key k).notifier = true
+    · simp [c, hk0, liveOf]
+    · simp [c, liveOf]
 
 /-- the reference's record of a live, fully created handle -/
 theorem absH_live {x : Handle} (hf : x.freed = false) (hw : x.written = true) :
@@ -1572,6 +1590,7 @@ theorem refine_step {s s' : State} {sp : S} {e : Ev} (hr : Reach s) (ab : Abs s 
   | joinFail a' h => obtain ⟨a, o⟩ := refine_joinFail ab hs; exact ⟨a, by rw [o]; simp [specStep, a.live]⟩
   | tlsFail t k g => obtain ⟨a, o⟩ := refine_tlsFail ab hs; exact ⟨a, by rw [o]; simp [specStep, a.live]⟩
   | currentFail t => obtain ⟨a, o⟩ := refine_currentFail hi ab hs; exact ⟨a, by rw [o]; simp [specStep, a.live]⟩
+  | storeFail t k r => obtain ⟨a, o⟩ := refine_storeFail ab hs; exact ⟨a, by rw [o]; simp [specStep, a.live]⟩
   | startUnstored t => obtain ⟨a, o⟩ := refine_startUnstored ab hs; exact ⟨a, by rw [o]; simp [specStep, a.live]⟩
   | retUnstored t h => obtain ⟨a, o⟩ := refine_retUnstored hi hr.pinv ab hs; exact ⟨a, by rw [o]; simp [specStep, a.live]⟩
 
